@@ -227,14 +227,19 @@ func (c *cmpCtx) cmpAttr(path string, a, b *attrRec, suffix string, seen map[str
 		return
 	}
 	var emptyDropped, other []string
+	var staleX, otherB []string
 	for _, k := range onlyA {
-		if a.Xattrs[k] == "" {
+		switch {
+		case a.Xattrs[k] == "":
 			emptyDropped = append(emptyDropped, k)
-		} else {
+		case c.mode != "stores" && c.xattrInEarlierDirEntry(path, k, a.Xattrs[k]):
+			// db-vs-db: which stale xattr of an earlier entry survives depends on the
+			// db store's random choice of a "first" xattr, so either side may have it
+			staleX = append(staleX, k)
+		default:
 			other = append(other, k)
 		}
 	}
-	var staleX, otherB []string
 	for _, k := range onlyB {
 		switch {
 		case b.Xattrs[k] == "" && c.mode != "stores":
